@@ -226,6 +226,11 @@ def gen_annotation(rng, min_len=1, max_len=12, residues=RESIDUES20, p=0.35, kind
             if rng.random() < p * 0.6:
                 d[i] = mods()
         if d:
+            if rng.random() < 0.4:
+                # dict insertion order is not position order after reverse()/add_internal_mod(); exercise that too
+                ks = list(d)
+                rng.shuffle(ks)
+                d = {k: d[k] for k in ks}
             a._internal_mods = d
     if has('intervals') and n >= 2:
         ivs = []
